@@ -102,6 +102,11 @@ func isBigIntMethod(f *types.Func, names ...string) bool {
 // amountSign classifies an amount operand: X.Amount -> +1, Neg(X.Amount) -> -1, else 0.
 func amountSign(info *types.Info, e ast.Expr) int {
 	e = ast.Unparen(e)
+	if id, ok := e.(*ast.Ident); ok && effectsBody != nil {
+		if def := resolveLocal(info, effectsBody, id); def != ast.Expr(id) {
+			return amountSign(info, def)
+		}
+	}
 	if p := astx.SelectorPath(e); strings.HasSuffix(p, ".Amount") {
 		return 1
 	}
@@ -120,6 +125,11 @@ func amountSign(info *types.Info, e ast.Expr) int {
 }
 
 func roleOfExpr(e ast.Expr) string {
+	if id, ok := ast.Unparen(e).(*ast.Ident); ok && effectsBody != nil && effectsInfo != nil {
+		if def := resolveLocal(effectsInfo, effectsBody, id); def != ast.Expr(id) {
+			return roleOfExpr(def)
+		}
+	}
 	p := astx.SelectorPath(e)
 	switch {
 	case strings.HasSuffix(p, ".Source"):
@@ -151,9 +161,28 @@ func roleFromFacts(facts []astx.Fact) string {
 	return role
 }
 
+// effectsBody/effectsInfo: the body whose single-definition locals amountSign and roleOfExpr read
+// through (`neg := new(big.Int).Neg(p.Amount)`, `src := p.Source`); set by amountEffects.
+var (
+	effectsBody *ast.BlockStmt
+	effectsInfo *types.Info
+)
+
+// amountEffectsScope collects the effects over d and the same-package helpers it calls.
+func amountEffectsScope(scope []*astx.DeclInfo) []Effect {
+	var out []Effect
+	inScope(scope, func(sd *astx.DeclInfo) {
+		out = append(out, amountEffects(sd.Pkg.TypesInfo, sd.Decl.Body)...)
+	})
+	return out
+}
+
 // amountEffects extracts the effects of posting amounts in a function body.
 func amountEffects(info *types.Info, body *ast.BlockStmt) []Effect {
 	var out []Effect
+	prevB, prevI := effectsBody, effectsInfo
+	effectsBody, effectsInfo = body, info
+	defer func() { effectsBody, effectsInfo = prevB, prevI }()
 	ast.Inspect(body, func(n ast.Node) bool {
 		call, ok := n.(*ast.CallExpr)
 		if !ok {
